@@ -1,13 +1,18 @@
 SPECIFICATION Spec
 CONSTANTS MaxN = 2
-  LenProfiles <- LensQuick
+  DataProfiles <- DataQuick
   Forms <- FormsQuick
-  StopKinds = {"close"}
+  StopKinds = {"close", "keep"}
   Scenarios <- ScenQuick
   Reruns = {FALSE, TRUE}
   RerunScenarios <- ScenRerunQuick
-  RerunLens <- LensRerunQuick
+  RerunData <- DataRerunQuick
   RerunForms <- FormsRerunQuick
+  Holds = {TRUE}
+  HoldScenarios <- ScenHoldQuick
+  HoldData <- DataHoldQuick
+  HoldForms <- FormsHoldQuick
+  HoldRc = {FALSE}
   KeepHistory = TRUE
   Design = "rename"
 VIEW view
